@@ -525,3 +525,111 @@ Proof.
   intros [Hnd Hm] Hk. apply find_idx_none in Hk.
   unfold il_get, il_contains_key, il_index, m_get. rewrite Hm, Hk. auto.
 Qed.
+
+(* ---------- names that leave the list are gone (removal by name / index, pop, rename) ---------- *)
+Lemma vec_swap_remove_nth v i x v' : vec_swap_remove v i = Some (x, v') -> nth_error v i = Some x.
+Proof.
+  intros H. destruct (vec_swap_remove_spec _ _ _ _ H) as (pre & post & Hv & Hlen & _).
+  subst v i. rewrite nth_error_app2 by lia. rewrite Nat.sub_diag. reflexivity.
+Qed.
+
+Lemma spec_swap_remove_gone v i x v' : NoDup (names v) ->
+  vec_swap_remove v i = Some (x, v') -> ~ In (iname x) (names v').
+Proof.
+  intros Hnd H. destruct (vec_swap_remove_spec _ _ _ _ H) as (pre & post & Hv & _ & Hc).
+  subst v. apply NoDup_names_app in Hnd. destruct Hnd as (_ & Hxp & Hd).
+  assert (Hpre : ~ In (iname x) (names pre)).
+  { intro Hi. apply (Hd _ Hi). simpl. auto. }
+  assert (Hpost : ~ In (iname x) (names post)).
+  { simpl in Hxp. inversion Hxp; assumption. }
+  destruct Hc as [[-> ->] | (mid & last & -> & ->)]; [exact Hpre|].
+  rewrite names_app. simpl. rewrite names_app in Hpost. simpl in Hpost.
+  intro Hi. apply in_app_or in Hi. destruct Hi as [Hi | [Hi | Hi]].
+  - exact (Hpre Hi).
+  - apply Hpost. apply in_or_app. right. simpl. auto.
+  - apply Hpost. apply in_or_app. left. exact Hi.
+Qed.
+
+Lemma spec_remove_name_gone v k : NoDup (names v) ->
+  ~ In k (names (fst (spec_step v (OSwapRemove k)))).
+Proof.
+  intros Hnd. simpl. destruct (find_idx k v) as [i|] eqn:E.
+  - destruct (find_idx_some_nth _ _ _ E) as (it & Hn & Hk).
+    destruct (vec_swap_remove v i) as [[x v']|] eqn:Es; simpl.
+    + pose proof (vec_swap_remove_nth _ _ _ _ Es) as Hx. rewrite Hn in Hx. inversion Hx; subst x.
+      rewrite <- Hk. eapply spec_swap_remove_gone; eauto.
+    + apply vec_swap_remove_none in Es. apply find_idx_lt in E. lia.
+  - simpl. apply find_idx_none. exact E.
+Qed.
+
+Lemma spec_pop_gone v it r : NoDup (names v) -> vec_pop v = Some (it, r) -> ~ In (iname it) (names r).
+Proof.
+  intros Hnd H. pose proof (vec_pop_spec v) as Hs. rewrite H in Hs. subst v.
+  apply NoDup_names_app in Hnd. destruct Hnd as (_ & _ & Hd). intro Hi. apply (Hd _ Hi). simpl. auto.
+Qed.
+
+Lemma spec_rename_away_gone v i it new : NoDup (names v) -> nth_error v i = Some it ->
+  new <> iname it -> ~ In (iname it) (names (set_nth v i (new, snd it))).
+Proof.
+  intros Hnd Hn Hne. destruct (nth_error_split _ _ Hn) as (pre & post & Hv & Hlen). subst v i.
+  rewrite set_nth_split. apply NoDup_names_app in Hnd. destruct Hnd as (_ & Hxp & Hd).
+  rewrite names_app. simpl. intro Hi. apply in_app_or in Hi. destruct Hi as [Hi | [Hi | Hi]].
+  - apply (Hd _ Hi). simpl. auto.
+  - apply Hne. exact Hi.
+  - simpl in Hxp. inversion Hxp; contradiction.
+Qed.
+
+(* the four ways a name leaves the list, on the implementation model: afterwards the name
+   cannot be looked up, is not a key and has no index *)
+Definition gone (l : ilist) (k : string) : Prop :=
+  il_get l k = Ok None /\ il_contains_key l k = false /\ il_index l k = None.
+
+Theorem removed_by_name_gone l k l' o : Inv l -> step l (OSwapRemove k) = Ok (l', o) -> gone l' k.
+Proof.
+  intros HI Hs. destruct (step_refines l (OSwapRemove k) HI I) as (l1 & H1 & H2 & H3).
+  rewrite H1 in Hs. inversion Hs; subst l1. apply inv_absent_unreachable; [exact H3|].
+  rewrite H2. apply spec_remove_name_gone. exact (proj1 HI).
+Qed.
+
+Theorem removed_by_index_gone l i it l' o : Inv l -> nth_error (items l) i = Some it ->
+  step l (OSwapRemoveIdx i) = Ok (l', o) -> o = OItem (Some it) /\ gone l' (iname it).
+Proof.
+  intros HI Hn Hs. destruct (step_refines l (OSwapRemoveIdx i) HI I) as (l1 & H1 & H2 & H3).
+  rewrite H1 in Hs. inversion Hs; subst l1. clear Hs. simpl in *.
+  destruct (vec_swap_remove (items l) i) as [[x v']|] eqn:Es.
+  - pose proof (vec_swap_remove_nth _ _ _ _ Es) as Hx. rewrite Hn in Hx. inversion Hx; subst x.
+    simpl in *. split; [congruence|]. apply inv_absent_unreachable; [exact H3|].
+    rewrite H2. eapply spec_swap_remove_gone; [exact (proj1 HI) | exact Es].
+  - apply vec_swap_remove_none in Es. assert (i < length (items l)) by (apply nth_error_Some; congruence). lia.
+Qed.
+
+Theorem popped_gone l l' it : Inv l -> step l OPop = Ok (l', OItem (Some it)) -> gone l' (iname it).
+Proof.
+  intros HI Hs. destruct (step_refines l OPop HI I) as (l1 & H1 & H2 & H3).
+  rewrite H1 in Hs. inversion Hs as [[Hl Ho]]. subst l1. simpl in *.
+  destruct (vec_pop (items l)) as [[x r]|] eqn:Ep; simpl in *; [|discriminate].
+  inversion Ho; subst x. apply inv_absent_unreachable; [exact H3|].
+  rewrite H2. eapply spec_pop_gone; [exact (proj1 HI) | exact Ep].
+Qed.
+
+Theorem renamed_away_gone l i it new l' o : Inv l -> nth_error (items l) i = Some it ->
+  ~ In new (names (items l)) -> step l (ORename i new) = Ok (l', o) ->
+  gone l' (iname it) /\ il_index l' new = Some i /\ il_get l' new = Ok (Some (new, snd it)).
+Proof.
+  intros HI Hn Hfresh Hs.
+  assert (Hok : op_ok (items l) (ORename i new)).
+  { simpl. unfold rename_ok. rewrite Hn. left. exact Hfresh. }
+  destruct (step_refines l (ORename i new) HI Hok) as (l1 & H1 & H2 & H3).
+  rewrite H1 in Hs. inversion Hs; subst l1. clear Hs. simpl in H2. rewrite Hn in H2. simpl in H2.
+  assert (Hne : new <> iname it).
+  { intros ->. apply Hfresh. apply in_map. eapply nth_error_In; eauto. }
+  assert (Hn' : nth_error (items l') i = Some (new, snd it)).
+  { rewrite H2. destruct (nth_error_split _ _ Hn) as (pre & post & Hv & Hlen). rewrite Hv. subst i.
+    rewrite set_nth_split. rewrite nth_error_app2 by lia. rewrite Nat.sub_diag. reflexivity. }
+  split; [|split].
+  - apply inv_absent_unreachable; [exact H3|]. rewrite H2.
+    apply spec_rename_away_gone; [exact (proj1 HI) | exact Hn | exact Hne].
+  - apply inv_index_position; [exact H3|]. eexists; split; [exact Hn' | reflexivity].
+  - change new with (iname (new, snd it)) at 1. apply inv_all_reachable; [exact H3|].
+    eapply nth_error_In; eauto.
+Qed.
